@@ -167,4 +167,16 @@ PROPS["C08"] = dict(
     trusted=["harness/internal/puppet", "verif hooks VerifClientHello / VerifGenerateCookie (valid cookies for the datagram server)"],
 )
 
+PROPS["C05"] = dict(
+    technique="Coq proofs (induction over the attacked byte stream with concrete framing and idealised authenticated decryption; latch invariant over Read calls; case analysis of the CBC opening) + correspondence: a puppet peer seals records under the connection key, the stream is attacked, the real endpoint reads",
+    level_text="Theorems for every byte stream an attacker can deliver (delivered = payloads of the intact in-order genuine prefix; nothing of a damaged / replayed / reordered / truncated / "
+               "injected record; error latched; single CBC alert) proved in Coq; flips at header and body positions, drop, duplicate, swap, truncation at and inside boundaries, injected "
+               "records of every content type, genuine non-application records and the 16/17 ignored-record boundary are run against real TLCP endpoints in both modes and directions, "
+               "and the model must predict delivered bytes, the ending (EOF / unexpected EOF / which alert) and the latched second read.",
+    level_note="Trusted: Coq kernel + vm_compute; INT-CTXT idealisation of SM4-GCM and HMAC-SM3-then-CBC with the sequence number authenticated (C04 checks the construction); the puppet peer.",
+    code_names={1: "delivered-bytes-outside-intact-prefix", 2: "error-not-latched", 3: "intact-prefix-not-fully-delivered", 4: "cbc-damage-answered-by-other-alert", "hang": "hang"},
+    assumptions=["authenticated decryption rejects every record that is not byte-identical to the one sealed with the expected sequence number"],
+    trusted=["harness/internal/puppet (seals records with its own SM4-GCM / CBC+HMAC-SM3)", "Config.OnAlert to observe alert codes"],
+)
+
 NOT_YET = {}
